@@ -108,6 +108,8 @@ pub use bit_encoding::{
     u2, BitCollector, BitIter, CloseError as BitIterCloseError, EarlyEndOfStreamError,
 };
 pub use bit_encoding::{write_to_vec, BitWriter};
+#[cfg(feature = "verif-hooks")]
+pub use bit_encoding::DecodeNaturalError;
 
 #[cfg(feature = "elements")]
 pub use crate::policy::{
